@@ -285,6 +285,20 @@ func (h *H) genT(depth int, allowHash bool, inHash bool) *T {
 	return t
 }
 
+// someComment: "" (mostly), a block comment or a line comment
+func (h *H) someComment() string {
+	switch h.rng.Intn(6) {
+	case 0:
+		return fmt.Sprintf(" /* c%d */ ", h.rng.Intn(9))
+	case 1:
+		return fmt.Sprintf(" // d%d\n ", h.rng.Intn(9))
+	}
+	return ""
+}
+
+// esc keeps a source text on one line of the cases file
+func esc(s string) string { return strings.ReplaceAll(s, "\n", "\\n") }
+
 // ---------------------------------------------------------------- guarded evaluation
 func evalSexp(env *zygo.Zlisp, x zygo.Sexp) (res lib.Result) {
 	zygo.VerifSetBudget(budget)
@@ -302,6 +316,33 @@ func evalSexp(env *zygo.Zlisp, x zygo.Sexp) (res lib.Result) {
 	return lib.Result{Class: lib.OutValue, Val: v}
 }
 
+// parseRaw: the reader's output with the comments written INSIDE the form still in it (the
+// model applies its own mirror of the loader's comment filter, Templ.strip).
+func (h *H) parseRaw(src string) (x zygo.Sexp, ok bool) {
+	defer func() {
+		if r := recover(); r != nil {
+			ok = false
+		}
+	}()
+	p := h.env.VerifParser()
+	p.ResetAddNewInput(zygo.WholeText(strings.NewReader(src)))
+	xs, err := p.ParseTokens()
+	if err != nil {
+		return nil, false
+	}
+	xs = h.env.FilterArray(xs, zygo.RemoveEndsFilter)
+	var top []zygo.Sexp
+	for _, e := range xs {
+		if _, isC := e.(*zygo.SexpComment); !isC {
+			top = append(top, e)
+		}
+	}
+	if len(top) != 1 {
+		return nil, false
+	}
+	return top[0], true
+}
+
 func (h *H) parseOne(src string) (x zygo.Sexp, ok bool) {
 	defer func() {
 		if r := recover(); r != nil {
@@ -311,7 +352,13 @@ func (h *H) parseOne(src string) (x zygo.Sexp, ok bool) {
 	p := h.env.VerifParser()
 	p.ResetAddNewInput(zygo.WholeText(strings.NewReader(src)))
 	xs, err := p.ParseTokens()
-	if err != nil || len(xs) != 1 {
+	if err != nil {
+		return nil, false
+	}
+	// what LoadExpressions hands to the generator: comments and end marks filtered out
+	xs = h.env.FilterArray(xs, zygo.RemoveCommentsFilter)
+	xs = h.env.FilterArray(xs, zygo.RemoveEndsFilter)
+	if len(xs) != 1 {
 		return nil, false
 	}
 	return xs[0], true
@@ -456,24 +503,33 @@ func (h *H) sqCase(t *T, extra ...string) {
 	if !hasHash {
 		// route 1: reader sugar, top level
 		sugar := h.rng.Intn(4) != 0
+		if h.rng.Intn(3) == 0 {
+			commentFn = h.someComment
+			tags = append(tags, "comments-in-template")
+		}
 		src := "^" + t.Src(sugar)
 		if !sugar {
 			src = "(syntaxQuote " + t.Src(false) + ")"
 		}
+		commentFn = nil
 		vtok := "yPARSE-ERROR"
-		if x, ok := h.parseOne(src); ok {
+		if x, ok := h.parseRaw(src); ok {
 			if arg, ok := sqArg(x); ok {
 				vtok = Canon(arg).Tok()
 			}
 		}
 		r := lib.Eval(h.env, src, budget)
 		impl := h.observe(r, nil)
-		h.out.Case("sq:text|"+h.epoch+" "+src+"|"+a+"|"+vtok+binds, impl, nontrivial, append(tags, "route-text")...)
+		h.out.Case("sq:text|"+h.epoch+" "+esc(src)+"|"+a+"|"+vtok+binds, impl, nontrivial, append(tags, "route-text")...)
 		// route 2: long form as an argument of a call, operands below and above
 		if t.K != 'S' {
+			if h.rng.Intn(3) == 0 {
+				commentFn = h.someComment
+			}
 			src2 := "(list 7 (syntaxQuote " + t.Src(h.rng.Intn(2) == 0) + ") 8)"
+			commentFn = nil
 			vtok2 := "yPARSE-ERROR"
-			if x, ok := h.parseOne(src2); ok {
+			if x, ok := h.parseRaw(src2); ok {
 				if arr, err := zygo.ListToArray(x); err == nil && len(arr) == 4 {
 					if arg, ok := sqArg(arr[2]); ok {
 						vtok2 = Canon(arg).Tok()
@@ -493,7 +549,7 @@ func (h *H) sqCase(t *T, extra ...string) {
 				}
 				return arr[1], true
 			})
-			h.out.Case("sq:ctx|"+h.epoch+" "+src2+"|"+a+"|"+vtok2+binds, impl2, nontrivial, append(tags, "route-ctx")...)
+			h.out.Case("sq:ctx|"+h.epoch+" "+esc(src2)+"|"+a+"|"+vtok2+binds, impl2, nontrivial, append(tags, "route-ctx")...)
 		}
 	}
 	// route 4: evaluated twice with in-place updates of the first result in between
@@ -625,6 +681,9 @@ func (h *H) replay(path string) {
 	if err := json.Unmarshal(b, &rp); err != nil {
 		panic(err)
 	}
+	for i := range rp.Program {
+		rp.Program[i] = strings.ReplaceAll(rp.Program[i], "\\n", "\n")
+	}
 	h.env = newEnv()
 	d := &depthRec{}
 	d.install(h.env)
@@ -654,6 +713,9 @@ func (h *H) replay(path string) {
 		}
 		if i == len(rp.Program)-1 && strings.HasPrefix(rp.Input, "call|") {
 			impl = runProg(h.env, d, line)
+			if strings.Contains(rp.Input, "|ctl-") {
+				impl += " ;2; " + runProg(h.env, d, line)
+			}
 			break
 		}
 		r := lib.Eval(h.env, line, budget)
